@@ -834,7 +834,7 @@ def c18_init_stream(out, tier, seed):
     generator seeded with s is the symbol stream(s, k); cloning a generator copies both.  Every entry of the result must be
     the next draw of the one seeded generator, in row-major order (hence pure, prefix-stable, no draw reused)."""
     eng = mir_load.load_engine()
-    sizes = [(3, 2), (0, 3), (3, 0), (65, 1), (2, 70)] + ([(130, 2), (1, 300)] if tier == "thorough" else [])
+    sizes = [(3, 2), (0, 3), (3, 0), (65, 1), (2, 70)] + ([(130, 2), (1, 300), (64, 64)] if tier == "thorough" else [])
     u = MUnit(out, "C18", "c18_init_stream", eng, functions=["core::init_with_seed", "core::init_det", "core::init", "core::_init (+ closures)"],
               bounds=["(n, d) in %s; seed symbolic over all of u64; f64 and f32 element types share the MIR" % (sizes,)],
               assumptions=["a SmallRng is identified by (seed, number of draws taken); StandardNormal.sample(rng) returns stream(seed, k) and "
